@@ -124,7 +124,9 @@ func (e *Explorer[S]) Run(inits ...S) {
 		}
 		var next []item[S]
 		stop := false
-		const batch = 16384
+		// the deadline and the state cap are looked at between batches: a small batch keeps a cut close to its budget
+		// (state numbering does not depend on the batch size: batches are merged in frontier order)
+		const batch = 1024
 		for b0 := 0; b0 < len(frontier) && !stop; b0 += batch {
 			b1 := b0 + batch
 			if b1 > len(frontier) {
